@@ -39,9 +39,10 @@ type Plan struct {
 	Cap        int            `json:"cap"`
 	NKeys      int            `json:"nkeys"`
 	Callback   bool           `json:"callback"`
-	Sys        bool           `json:"systematic,omitempty"`  // a case of the systematic corpus (every short sequence)
-	MixedKeys  bool           `json:"mixed_keys,omitempty"`  // keys of different dynamic types whose printed forms collide
-	CallbackAt int            `json:"callback_at,omitempty"` // single client: the callback is registered just before this operation index (0: before the first)
+	Sys        bool           `json:"systematic,omitempty"`    // a case of the systematic corpus (every short sequence)
+	MixedKeys  bool           `json:"mixed_keys,omitempty"`    // keys of different dynamic types whose printed forms collide
+	CallbackAt int            `json:"callback_at,omitempty"`   // single client: the callback is registered just before this operation index (0: before the first)
+	Bystander  int            `json:"bystander_ops,omitempty"` // > 0: a second, independent cache instance is used at the same time (that many operations)
 	Clients    [][]Op         `json:"clients"`
 	Cfg        simsync.Config `json:"cfg"`
 }
@@ -136,6 +137,9 @@ func GenC09(r *detsim.Rand, tier string) *Plan {
 	m, lbs := genMix(r, true)
 	p.Clients = [][]Op{genOps(r, 0, n, p.NKeys, m, lbs)}
 	p.MixedKeys = r.Chance(1, 4)
+	if r.Chance(1, 6) {
+		p.Bystander = 1
+	}
 	if p.Callback && n > 3 && r.Chance(1, 8) {
 		p.CallbackAt = 1 + r.Intn(n-1)
 	}
@@ -190,6 +194,9 @@ func GenC10(r *detsim.Rand, tier string, forceShape string) *Plan {
 		shape = "huge"
 	}
 	p.Shape = shape
+	if r.Chance(1, 4) {
+		p.Bystander = 4 + r.Intn(12)
+	}
 	pyields := r.Chance(1, 2)
 	if shape == "huge" {
 		// a cache as large as the library's default one, full from the start; clients only load, update existing keys,
